@@ -42,10 +42,16 @@ def _stack(case):
         m[perm[:pos]] = 1.0
         extra = perm[pos : pos + max(1, (V - pos) // 3)]
         m[extra] = 1.0          # voxels inside the mask that carry only the constant background
+        if cfg.get("soft"):
+            # soft mask: the first floor(|B_j|/2) voxels of every block (and every other background voxel) weigh 1/2
+            for b in blocks:
+                m[b[: len(b) // 2]] = 0.5
+            m[extra[::2]] = 0.5
         junk = np.setdiff1d(np.arange(V), np.flatnonzero(m))
         X[:, junk] += np.random.default_rng(7).normal(size=(n, len(junk))) * 10  # must be ignored
         mask = m.reshape(box)
-    return X.reshape((n,) + box).astype(np.float32), blocks, mask
+    weights = [np.ones(len(b)) if mask is None else mask.ravel()[b].astype(np.float64) for b in blocks]
+    return X.reshape((n,) + box).astype(np.float32), blocks, mask, weights
 
 
 def replay_noisy(case) -> dict:
@@ -62,8 +68,8 @@ def replay_noisy(case) -> dict:
     desc = dict(part="noisy", n=n, voxels=V, large=max(n, V) > 500)
     fails = []
 
-    def fit(rowchunk):
-        clf = PcaClassifier(da.from_array(X, chunks=(rowchunk,) + box), None, n_components=2, n_clusters=2, seed=0)
+    def fit(rowchunk, voxchunk=None, ncomp=2):
+        clf = PcaClassifier(da.from_array(X, chunks=(rowchunk,) + (voxchunk or box)), None, n_components=ncomp, n_clusters=2, seed=0)
         clf.run()
         return np.abs(np.asarray(clf.get_transform(), dtype=np.float64)), np.asarray(clf.pca.singular_values_, dtype=np.float64)
 
@@ -79,6 +85,20 @@ def replay_noisy(case) -> dict:
         fails.append(dict(desc, clause="ChunkingInvariant", maxdiff=float(np.abs(t1 - t3).max() / scale)))
     if not (np.allclose(s1, s2, rtol=1e-4) and np.allclose(s1, s3, rtol=1e-4)):
         fails.append(dict(desc, clause="SingularValuesInvariant"))
+    if max(n, V) <= 500:
+        # exact regime: cutting the voxels into chunks must not change anything either, also for components past the
+        # spectral gap (singular values only there: nearly degenerate directions are ill-conditioned)
+        vc = tuple(max(1, (b + 1) // 2) for b in box)
+        t4, s4 = fit(max(1, n // 3), vc)
+        if not np.allclose(t1, t4, atol=1e-4 * scale):
+            fails.append(dict(desc, clause="VoxelChunkingInvariant", maxdiff=float(np.abs(t1 - t4).max() / scale)))
+        if n > 5:
+            _, s5 = fit(n, None, 4)
+            _, s6 = fit(max(1, n // 3), vc, 4)
+            if not np.allclose(s5, s6, rtol=1e-4):
+                fails.append(dict(desc, clause="SingularValuesVoxelChunking", observed=s6.tolist(), expected=s5.tolist()))
+            if not np.allclose(s5[:2], s1, rtol=1e-4):
+                fails.append(dict(desc, clause="LeadingValuesIndependentOfNComponents"))
     return dict(failures=fails)
 
 
@@ -91,14 +111,14 @@ def replay(case) -> dict:
     from acryo.classification import PcaClassifier
 
     cfg = case["cfg"]
-    stack, blocks, mask = _stack(case)
+    stack, blocks, mask, weights = _stack(case)
     n = stack.shape[0]
     box = stack.shape[1:]
     V = int(np.prod(box))
     chunks = (tuple(case["rowchunks"]),) + ((box[0],) if not cfg["voxchunk"] else ((box[0] + 1) // 2, box[0] // 2),) + tuple((b,) for b in box[1:])
     dstack = da.from_array(stack, chunks=chunks)
     ncomp = cfg["ncomp"]
-    desc = dict(part="pca", n=n, voxels=V, large=V > 500, ncomp=ncomp, J=cfg["design"]["J"], truncated=ncomp < cfg["design"]["J"], mask=cfg["mask"],
+    desc = dict(part="pca", n=n, voxels=V, large=V > 500, ncomp=ncomp, J=cfg["design"]["J"], truncated=ncomp < cfg["design"]["J"], mask=cfg["mask"], soft=cfg.get("soft", False),
                 rowchunks=cfg["rowchunks"], voxchunk=cfg["voxchunk"])
     fails = []
 
@@ -116,16 +136,18 @@ def replay(case) -> dict:
     comps = np.asarray(clf.pca.components_, dtype=np.float64)
     for r in range(ncomp):
         j = order[r]
-        want = float(case["sigma2"][j])
+        want = float(case["sigma2x4"][j]) / 4
         if abs(S2[r] - want) > 1e-3 * want:
             fails.append(dict(desc, clause="SingularValues", comp=r, observed=float(S2[r]), expected=want))
             continue
-        p2 = np.array([case["proj2"][i][j] for i in range(n)], dtype=np.float64)
+        p2 = np.array([case["proj2x4"][i][j] for i in range(n)], dtype=np.float64) / 4
+        if abs(float(np.sum(weights[j] ** 2)) * 4 - case["w4"][j]) > 1e-9:
+            raise RuntimeError("harness mask does not realise the block weights of the specification")
         if np.max(np.abs(T[:, r] ** 2 - p2)) > 1e-3 * max(1.0, p2.max()):
             fails.append(dict(desc, clause="Projections", comp=r))
         c = comps[r]
         supp = np.zeros(V)
-        supp[blocks[j]] = 1.0 / np.sqrt(len(blocks[j]))
+        supp[blocks[j]] = weights[j] / np.sqrt(np.sum(weights[j] ** 2))
         if min(np.max(np.abs(c - supp)), np.max(np.abs(c + supp))) > 1e-3:
             fails.append(dict(desc, clause="Components", comp=r, maxdev=float(min(np.max(np.abs(c - supp)), np.max(np.abs(c + supp))))))
     # run-to-run reproducibility
@@ -197,17 +219,17 @@ def run(rep: engine.Report, tier: str, seed: int):
     if not cases:
         raise engine.MachineryError("MC_C18 emitted nothing")
     budget = 500 if tier == "quick" else len(cases)
-    sel = engine.stratified_sample(cases, lambda c: (tuple(c["cfg"]["box"]), c["cfg"]["ncomp"], c["cfg"]["mask"], c["cfg"]["rowchunks"], c["cfg"]["voxchunk"], len(c["cfg"]["design"]["A"])), budget, seed)
+    sel = engine.stratified_sample(cases, lambda c: (tuple(c["cfg"]["box"]), c["cfg"]["ncomp"], c["cfg"]["mask"], c["cfg"]["soft"], c["cfg"]["rowchunks"], c["cfg"]["voxchunk"], len(c["cfg"]["design"]["A"])), budget, seed)
     cls = [dict(kind="classify", n=n, loader=l, seed=seed + i) for i, (n, l) in enumerate((n, l) for n in (6, 9, 12) for l in ("single", "batch"))]
-    noisy = [dict(kind="noisy", n=n, box=list(b), seed=seed * 31 + i) for i, (n, b) in enumerate((n, b) for n in (6, 12, 30) for b in ((4, 4, 4), (7, 8, 9), (10, 10, 10)))]
+    noisy = [dict(kind="noisy", n=n, box=list(b), seed=seed * 31 + i) for i, (n, b) in enumerate((n, b) for n in (6, 12, 30, 60) for b in ((4, 4, 4), (6, 7, 8), (7, 8, 9), (10, 10, 10)))]
     allc = sel + cls + noisy
     results = engine.parallel_replay("harness.props.c18", "replay", allc)
     engine.collect(rep, allc, results, key=lambda c: c.get("cfg") or c)
     rep.traces_validated = len(allc)
-    rep.samples = [dict(cfg=sel[0]["cfg"], sigma2=sel[0]["sigma2"]), cls[0]]
+    rep.samples = [dict(cfg=sel[0]["cfg"], sigma2x4=sel[0]["sigma2x4"]), cls[0]]
     rep.rule = (
         "TLC enumerates block-orthogonal integer designs (4 and 8 images, 3 blocks, 3 weightings x 3 block-size vectors with pairwise "
-        "distinct singular values) x boxes of 27, 40 and 729 voxels x n_components {2,3} x mask x row chunkings {one, one row each, uneven} "
+        "distinct singular values) x boxes of 27, 40 and 729 voxels x n_components {2,3} x mask {none, 0/1, soft with weights 1/2 and 1} x row chunkings {one, one row each, uneven} "
         f"x voxel chunking, with exact sigma^2, squared projections and component supports; {len(cases)} cases, {len(sel)} run through "
         f"PcaClassifier; plus {len(cls)} loader.classify cases on planted two-class tomograms (single and batch loaders)"
     )
@@ -227,7 +249,7 @@ def selftest() -> int:
     case = next(c for c in mc.emitted if c["cfg"]["box"] == [3, 3, 3] and c["cfg"]["ncomp"] == 3 and not c["cfg"]["mask"] and c["cfg"]["rowchunks"] == "one" and not c["cfg"]["voxchunk"])
     good = replay(case)
     bad = json.loads(json.dumps(case))
-    bad["sigma2"][0] += 5
+    bad["sigma2x4"][0] += 20
     r = replay(bad)
     ok = not good["failures"] and bool(r["failures"])
     print("selftest C18:", "ok" if ok else f"FAILED {good}")
